@@ -178,11 +178,45 @@ theorem C08_values (hullT : List Pt → List Pt) (t : SrcTable) (c : Nat) (hc : 
     rw [List.getElem?_eq_getElem hjP]
     cases P[j] <;> simp [emptyCell, Except.toOption]
 
-/-- the value of a cell is the space-joined text of its lines -/
+/-- the value of a cell is the space-joined text of those of its lines that have a text
+    (a line without TextEquiv, or with an empty / blank Unicode element, contributes nothing —
+    not even a separator); the lines themselves are all kept -/
 theorem C08_cell_value (x : SrcCell) :
-    (mirrorCell x).value = joinSp ((x.lines.map mirrorLine).map lineTextStr) ∧
+    (mirrorCell x).value = joinSp ((x.lines.map mirrorLine).filterMap lineTextOpt) ∧
     (mirrorCell x).lines = x.lines.map mirrorLine ∧ (mirrorCell x).id = some x.id ∧
     (emptyCell none 0).value = "" := ⟨rfl, rfl, rfl, rfl⟩
+
+/-- which lines have a text: those with a TextEquiv whose Unicode text is not blank -/
+theorem C08_line_text_present (l : SrcLine) :
+    lineTextOpt (mirrorLine l)
+      = l.te.bind (fun te => if X.strip te.unicode = "" then none else some (X.strip te.unicode)) := by
+  cases hte : l.te with
+  | none => simp [lineTextOpt, mirrorLine, mirrorTEText, hte]
+  | some te =>
+    simp only [lineTextOpt, mirrorLine, mirrorTEText, hte, textVal, Option.bind_some]
+    by_cases h : X.strip te.unicode = "" <;> simp [h, txtOf]
+
+/-- lines without text do not change the value: it is the value of the cell holding only the
+    lines that have one; a cell whose lines all lack text has the value `""` -/
+theorem C08_textless_lines_skipped (x : SrcCell) :
+    (mirrorCell x).value
+      = (mirrorCell { x with lines := x.lines.filter (fun l => (lineTextOpt (mirrorLine l)).isSome) }).value ∧
+    ((∀ l ∈ x.lines, lineTextOpt (mirrorLine l) = none) → (mirrorCell x).value = "") := by
+  constructor
+  · simp only [mirrorCell, List.filterMap_map]
+    congr 1
+    induction x.lines with
+    | nil => rfl
+    | cons l ls ih =>
+      simp only [List.filterMap_cons, List.filter_cons, Function.comp_def] at ih ⊢
+      cases h : lineTextOpt (mirrorLine l) <;> simp [h, ih]
+  · intro h
+    have : (x.lines.map mirrorLine).filterMap lineTextOpt = [] := by
+      rw [List.filterMap_map]
+      apply List.filterMap_eq_nil_iff.mpr
+      intro l hl
+      exact h l hl
+    simp [mirrorCell, this, joinSp]
 
 /-- **counts**: rows, cells and lines of the table equal those of the source -/
 theorem C08_counts (hullT : List Pt → List Pt) (t : SrcTable) :
@@ -291,5 +325,13 @@ private def exLine : SrcLine :=
 
 example : cellOk { sc "x" 2 1 with lines := [exLine], corner := some "1 2 3 4", orientation := some "90" } = true := by
   decide
+
+/-- a cell with a line that has no TextEquiv and one with an empty Unicode element is conformant;
+    its value is the text of the remaining line -/
+example : cellOk { sc "x" 0 0 with lines := [{ exLine with te := none }, exLine,
+    { exLine with te := some { conf := none, plain := none, unicode := "" } }] } = true := by decide
+
+example : (mirrorCell { sc "x" 0 0 with lines := [{ exLine with te := none }, exLine,
+    { exLine with te := some { conf := none, plain := none, unicode := " " } }] }).value = "a b" := by decide
 
 end Pagexml.C08
